@@ -90,6 +90,7 @@ def main():
     obligations = discharged = 0
     bounded = []
     functions = []
+    entry_pre = []
     trusted = set()
     rules = {}
     samples = []
@@ -132,6 +133,8 @@ def main():
             fps = [p for p in re.split(r"[ ,]+", fn.get("props", "")) if p]
             if not fps or prop in fps:
                 functions.append(f"{fn['file']}:{fn['line']} {fn.get('impl') or ''}::{fn['fn']} [{r['backend']}:{r['unit']}]")
+                if fn.get("requires"):
+                    entry_pre.append(f"[{r['unit']}] {fn.get('gen_name') or fn['fn']}: requires {fn['requires']}")
         trusted.update(f"[{r['unit']}] {t}" for t in r["trusted"])
         for k, v in r.get("rules", {}).items():
             rules[k] = rules.get(k, 0) + v
@@ -177,6 +180,7 @@ def main():
             checker_cmd=" ; ".join(sorted(c for c in cmds if c))[:2000],
             trusted_base=sorted(trusted),
             functions_under_contract=sorted(set(functions)),
+            entry_preconditions_assumed_of_callers=sorted(set(entry_pre)),
             per_backend=per_backend,
             solver_time_ms=solver_ms,
             rewrite_rules_fired=rules,
